@@ -89,6 +89,7 @@ type Interp struct {
 	pendingGo  []pendingGo
 	initFailSeen map[string]bool
 	pathsSinceRestart int
+	uniqueTab  map[string]*Value
 	fsFiles    map[string]*fsFile
 	openFiles  map[*Value]*openFile
 	pureCache  map[*ssa.Function]int8
